@@ -34,11 +34,14 @@ fn is_stable_sorted(rs: &[Replacement], idx: &[usize]) -> bool {
 }
 fn repls(variant: u8) -> Vec<Replacement> {
   let second = match variant {
-    0 => Replacement::new(0, 1, String::new(), None, ReplacementEnforce::Normal),
     1 => Replacement::new(0, 1, String::new(), None, ReplacementEnforce::Pre), // enforce differs
-    _ => Replacement::new(0, 2, String::new(), None, ReplacementEnforce::Normal), // range differs
+    2 => Replacement::new(0, 2, String::new(), None, ReplacementEnforce::Normal), // range differs
+    _ => Replacement::new(0, 1, String::new(), None, ReplacementEnforce::Normal),
   };
-  vec![Replacement::new(1, 2, String::new(), None, ReplacementEnforce::Normal), second]
+  let mut v = vec![Replacement::new(1, 2, String::new(), None, ReplacementEnforce::Normal), second];
+  // variant 3: the same two replacements plus one that sorts after them (a proper extension)
+  if variant == 3 { v.push(Replacement::new(5, 6, String::new(), None, ReplacementEnforce::Normal)); }
+  v
 }
 /// a state over the given replacements whose cache is ARBITRARY subject to the K1 invariant
 fn warm(variant: u8) -> ReplaceSource<RawStringSource> {
@@ -61,7 +64,7 @@ fn cold(variant: u8) -> ReplaceSource<RawStringSource> {
 #[kani::proof]
 #[kani::unwind(8)]
 fn replace_eq_ignores_cache() {
-  let v: u8 = kani::any(); kani::assume(v < 3);
+  let v: u8 = kani::any(); kani::assume(v < 4);
   let a = warm(0);
   let b = cold(v);
   kani::cover!(a.is_sorted.load(Ordering::SeqCst), "sorted cache filled");
